@@ -70,6 +70,17 @@ def run(ck):
                 if f not in seen:
                     seen.add(f)
                     fs.append(f)
+    if ck.tier == 'thorough':
+        # 4-line files over a reduced alphabet (own entry in its variants, a foreign library, foreign snoopy, comments, blank)
+        import itertools as _it
+        A4 = C.line_alphabet(LIB)
+        red4 = [A4[i] for i in (0, 3, 5, 7, 8, 12, 13, 14)]
+        seen4 = set(fs)
+        for combo in _it.product(red4, repeat=4):
+            for f in (b'\n'.join(combo) + b'\n', b'\n'.join(combo)):
+                if f not in seen4:
+                    seen4.add(f)
+                    fs.append(f)
     cases = [(f, 'ees') for f in fs]
     # caller state: the same command started with descriptors 0, 1, 2 closed must do exactly the same to the file (differential)
     nplain = len(cases)
